@@ -103,10 +103,83 @@ Definition relay_complete (d : N) (direct_err : bool) (ls : list tlab) (out : li
   | None => false
   end.
 
+(* ---- delay_subscription d / subscribe_on (d = 0): one subscribing task (task 0).  Once that task
+   has been polled at a moment at which it is due, the operator is subscribed to its input, and
+   from then on every notification of the input is owed to the subscriber by the very call that
+   brings it, until the input terminates or unsubscribe() returns ---- *)
+Record qstate := {
+  q_now : N;
+  q_cur : option tlab;
+  q_sub : bool;                      (* the subscribing task has run *)
+  q_done : bool;                     (* the input has terminated *)
+  q_unsub : bool;
+  q_armed : option N;                (* time of the task's first poll *)
+  q_owed : bool
+}.
+
+Definition q0 : qstate :=
+  {| q_now := 0; q_cur := None; q_sub := false; q_done := false; q_unsub := false; q_armed := None; q_owed := false |}.
+
+Definition q_label (d : N) (q : qstate) (l : option tlab) : qstate :=
+  match l with
+  | Some (LAdv dt) =>
+      {| q_now := q_now q + dt; q_cur := l; q_sub := q_sub q; q_done := q_done q; q_unsub := q_unsub q;
+         q_armed := q_armed q; q_owed := false |}
+  | Some (LSrc e) =>
+      if q_done q then
+        {| q_now := q_now q; q_cur := l; q_sub := q_sub q; q_done := true; q_unsub := q_unsub q;
+           q_armed := q_armed q; q_owed := false |}
+      else
+        {| q_now := q_now q; q_cur := l; q_sub := q_sub q; q_done := is_term e; q_unsub := q_unsub q;
+           q_armed := q_armed q; q_owed := q_sub q && negb (q_unsub q) |}
+  | Some LUnsub =>
+      {| q_now := q_now q; q_cur := l; q_sub := q_sub q; q_done := q_done q; q_unsub := true;
+         q_armed := q_armed q; q_owed := false |}
+  | Some (LRun O) =>
+      if negb (q_sub q) && negb (q_unsub q) then
+        match q_armed q with
+        | Some a =>
+            {| q_now := q_now q; q_cur := l; q_sub := a + d <=? q_now q; q_done := q_done q; q_unsub := q_unsub q;
+               q_armed := q_armed q; q_owed := false |}
+        | None =>
+            if d =? 0 then
+              {| q_now := q_now q; q_cur := l; q_sub := true; q_done := q_done q; q_unsub := q_unsub q;
+                 q_armed := q_armed q; q_owed := false |}
+            else
+              {| q_now := q_now q; q_cur := l; q_sub := false; q_done := q_done q; q_unsub := q_unsub q;
+                 q_armed := Some (q_now q); q_owed := false |}
+        end
+      else
+        {| q_now := q_now q; q_cur := l; q_sub := q_sub q; q_done := q_done q; q_unsub := q_unsub q;
+           q_armed := q_armed q; q_owed := false |}
+  | _ =>
+      {| q_now := q_now q; q_cur := l; q_sub := q_sub q; q_done := q_done q; q_unsub := q_unsub q;
+         q_armed := q_armed q; q_owed := false |}
+  end.
+
+Definition q_deliver (q : qstate) : qstate :=
+  {| q_now := q_now q; q_cur := q_cur q; q_sub := q_sub q; q_done := q_done q; q_unsub := q_unsub q;
+     q_armed := q_armed q; q_owed := false |}.
+
+Definition q_step (d : N) (ls : list tlab) (q : qstate) (x : tout) : option qstate :=
+  match x with
+  | TMark j => if q_owed q then None else Some (q_label d q (nth_error ls j))
+  | TOut _ _ => Some (q_deliver q)
+  | _ => Some q
+  end.
+
+Definition pass_complete (d : N) (ls : list tlab) (out : list tout) : bool :=
+  match walk (q_step d ls) q0 out with
+  | Some q => negb (q_owed q)
+  | None => false
+  end.
+
 (* the predicate for operator `o` (the other operators are not judged by it) *)
 Definition timed_complete (o : top) (ls : list tlab) (out : list tout) : bool :=
   match o with
   | TDelay d => relay_complete d true ls out
   | TObserveOn => relay_complete 0 false ls out
+  | TDelaySubscription d => pass_complete d ls out
+  | TSubscribeOn => pass_complete 0 ls out
   | _ => true
   end.
